@@ -635,7 +635,7 @@ def run():
         elif not same:
             chk.cov['disagreements_checked'] += 1
             # the gather formula oracle passed on this input (or does not apply): classify
-            no_input = c['op'] == 'step'
+            no_input = c['op'] == 'step' and isinstance(impl, str) and impl.startswith('ok')
             chk.violation('%s:model-mismatch:%s' % (site, c.get('cls')),
                           'exact output of the code differs from the model: %s / %s' % (str(impl)[:100], m[0][:100]), replay, no_input=no_input)
     # ---- real objects
@@ -645,7 +645,7 @@ def run():
     for idx, (c, o) in enumerate(zip(ocases, ores)):
         if not isinstance(o, dict):
             chk.violation('FluxSurfaceAdvection:construction', 'building / stepping the real object ended with %r' % (o,),
-                          {'case': {k: v for k, v in c.items()}}, no_input=True)
+                          {'case': {k: v for k, v in c.items()}})
             continue
         ls = check_object(chk, c, o)
         olines += ls
